@@ -115,7 +115,7 @@ theorem mapShapeToRequested_good {m : DimensionMappings} {sh : Shape ν} (hs : G
     exact hs.2 x.2 (by simp only [lens, List.mem_map]; exact ⟨x, mapShapeToRequested_mem hm hx, rfl⟩)
 
 /-- the code's positional mapping is the documented by-name lookup -/
-theorem mapDimensionsToSource_eq_coords {m : DimensionMappings} {sh : Shape ν} (hs : GoodShape sh)
+theorem mapDimensionsToSource_eq_coords_of_good {m : DimensionMappings} {sh : Shape ν} (hs : GoodShape sh)
     (hm : MappingOK m sh.length) (idx : List Nat) :
     m.mapDimensionsToSource idx = coords sh (namesOf (m.mapShapeToRequested sh)) idx := by
   apply List.ext_getElem
